@@ -38,6 +38,16 @@ func runBuild(out *lib.Out, id string, l *loaded, level byte, route string, v *l
 	out.Case(id, "build", l.t.Text(), string(level), route, v.Text(), obs)
 }
 
+// a tree in which one struct / union position is filled by AssignNode of a bindnode node built
+// under a sibling schema type (same inferred Go type, different schema)
+func runSib(out *lib.Out, id string, l *loaded, level byte, v *lib.Val, inj *lib.SchInjection, route string) {
+	obs := l.bad
+	if obs == "" {
+		obs = lib.SchBuildInj(l.proto, string(level), v, inj)
+	}
+	out.Case(id, "build", l.t.Text(), string(level), route, v.Text(), obs)
+}
+
 func main() {
 	fl := lib.ParseFlags()
 	out := lib.OpenOut(fl.Out)
@@ -56,6 +66,14 @@ func main() {
 			v, err := lib.ParseVal(f[5])
 			if err != nil {
 				panic(err)
+			}
+			if strings.HasPrefix(f[4], "sib|") {
+				inj, err := lib.SchParseSibRoute(f[4], v, fmt.Sprintf("Rq%d", i))
+				if err != nil {
+					panic(err)
+				}
+				runSib(out, f[0], load(t), f[3][0], v, inj, f[4])
+				continue
 			}
 			runBuild(out, f[0], load(t), f[3][0], f[4], v)
 		}
@@ -77,6 +95,41 @@ func main() {
 			runBuild(out, fmt.Sprintf("c%d.%s", i, route), l, c.Level, route, c.V)
 		}
 	}
+	// fixed sibling witnesses: same inferred Go type, different schema
+	{
+		S, I := lib.SchScalar('S'), lib.SchScalar('I')
+		type sibCase struct {
+			t, sib *lib.SchTy
+			tree   *lib.Val
+		}
+		un := func() *lib.SchTy {
+			return lib.SchUnion('k', lib.SchMember{Name: "Aa", Disc: "a", Kind: 'm', T: lib.SchScalar('S')},
+				lib.SchMember{Name: "Bb", Disc: "b", Kind: 'm', T: lib.SchScalar('I')})
+		}
+		st := func() *lib.SchTy { return lib.SchStruct('m', lib.SchFOpt("aa", S), lib.SchFOpt("bb", I)) }
+		sibs := []sibCase{
+			{lib.SchStruct('m', lib.SchFNul("a", S)), lib.SchStruct('m', lib.SchFOpt("a", S)), lib.Map()},
+			{lib.SchStruct('m', lib.SchFOpt("a", S)), lib.SchStruct('m', lib.SchFNul("a", S)), lib.Map(lib.Entry{K: "a", V: lib.Null()})},
+			{un(), st(), lib.Map()},
+			{un(), st(), lib.Map(lib.Entry{K: "aa", V: lib.Str("x")}, lib.Entry{K: "bb", V: lib.Int(1)})},
+			{st(), un(), lib.Map(lib.Entry{K: "Aa", V: lib.Str("x")})},
+			{lib.SchStruct('m', lib.SchFRen("a", "x", S)), lib.SchStruct('m', lib.SchF("a", S)), lib.Map(lib.Entry{K: "a", V: lib.Str("q")})},
+		}
+		for i, c := range sibs {
+			lib.SchAssignNames(c.t, fmt.Sprintf("X%d", i))
+			lib.SchAssignNames(c.sib, fmt.Sprintf("X%dS", i))
+			l := load(c.t)
+			for _, level := range []byte{'t', 'r'} {
+				for _, view := range []byte{'t', 'r'} {
+					inj, err := lib.SchBuildInjection(c.sib, c.tree, view)
+					if err != nil {
+						continue
+					}
+					runSib(out, fmt.Sprintf("x%d.%c%c.sib", i, level, view), l, level, inj.Content, inj, lib.SchSibRoute(inj.Content, inj))
+				}
+			}
+		}
+	}
 	cfg := &lib.SchGenCfg{MaxDepth: 4}
 	for i := 0; i < n; i++ {
 		t := rng.SchGen(cfg)
@@ -94,6 +147,13 @@ func main() {
 				runBuild(out, base+".direct", l, level, "direct", v)
 				r := routes[1+rng.Intn(len(routes)-1)]
 				runBuild(out, base+"."+r, l, level, r, v)
+			}
+			for j := 0; j < 6; j++ {
+				v, inj := rng.SchValueWithSibling(t, level, fmt.Sprintf("G%dx%c%d", i, level, j))
+				if inj == nil {
+					continue
+				}
+				runSib(out, fmt.Sprintf("g%d.%cs%d.sib", i, level, j), l, level, v, inj, lib.SchSibRoute(v, inj))
 			}
 		}
 	}
